@@ -192,18 +192,12 @@ static int json_object_array_move_cb(struct json_object *parent, size_t idx,
                                      struct json_object *value, void *priv)
 {
 	int rc;
-	struct json_pointer_get_result *from = priv;
+	/* The element being moved has already been removed, so the index is
+	 * checked against the current length (RFC 6902 4.1: it must not be
+	 * greater than the number of elements in the array). */
 	size_t len = json_object_array_length(parent);
 
-	/**
-	 * If it's the same array parent, it means that we removed
-	 * and element from it, so the length is temporarily reduced
-	 * by 1, which means that if we try to move an element to
-	 * the last position, we need to check the current length + 1
-	 */
-	if (parent == from->parent)
-		len++;
-
+	(void)priv;
 	if (idx > len)
 	{
 		// Note: will propagate back out through json_pointer_set_with_array_cb()
